@@ -108,3 +108,16 @@ package main
 //@   ensures dataOK(d)
 //@   ensures in(week, d) && in(program, d[week]) && in(chart, d[week][program]) && in(bucket, d[week][program][chart]) && in(id, d[week][program][chart][bucket]) && d[week][program][chart][bucket][id] == value
 //@   modifies maps(weekName, map[programName]map[graphName]map[bucketName]map[reportID]int64), maps(programName, map[graphName]map[bucketName]map[reportID]int64), maps(graphName, map[bucketName]map[reportID]int64), maps(bucketName, map[reportID]int64), maps(reportID, int64)
+
+// partition: for every week and every listed bucket that is processed (a key was
+// computed for it), every report ID that carries the bucket in that week is in the
+// merged set of that key when the iteration ends; the merged sets are never nil.
+// (The value plotted for a key is the size of its merged set.)
+//@ contract data.partition
+//@   loop 1: invariant merged != nil && chart != nil && (forall k bucketName :: in(k, merged) ==> merged[k] != nil)
+//@   loop 2: invariant merged != nil && chart != nil && seen != nil && (forall k bucketName :: in(k, merged) ==> merged[k] != nil)
+//@   loop 3: invariant merged != nil && chart != nil && seen != nil && (forall k bucketName :: in(k, merged) ==> merged[k] != nil) && in(key, merged)
+//@   loop 3: invariant forall id reportID :: visited(d[wk][pk][chartName][bucket], id) ==> in(id, merged[key])
+//@   at loop 2 end: assert in(key, merged) && (forall id reportID :: in(id, d[wk][pk][chartName][bucket]) ==> in(id, merged[key]))
+//@   loop 4: invariant chart != nil
+//@   modifies heap
